@@ -13,6 +13,8 @@ import (
 	"strings"
 	"sync"
 	"time"
+
+	"verif/internal/gen"
 )
 
 // Root is the /verif directory (set by the driver).
@@ -154,6 +156,13 @@ func Run(p Property, opt Options) int {
 			continue
 		}
 		flat := Flatten(o.desc, o.res.Derived)
+		if dv, ok := p.(Deriver); ok {
+			for k, v := range dv.Derive(o.desc) {
+				if _, have := flat[k]; !have {
+					flat[k] = v
+				}
+			}
+		}
 		matched := false
 		for i := range findings {
 			if findings[i].Matches(o.res.Class, flat) {
@@ -191,7 +200,12 @@ func Run(p Property, opt Options) int {
 	written := 0
 	exit := 0
 	classHist := map[string]int{}
+	dump := os.Getenv("VERIF_DUMP") != ""
 	for _, v := range unknown {
+		if dump {
+			b, _ := json.Marshal(map[string]any{"class": v.o.res.Class, "flat": v.flat, "msg": oneLine(v.o.res.Msg)})
+			fmt.Fprintf(os.Stderr, "DUMP %s\n", b)
+		}
 		classHist[v.o.res.Class]++
 		exit = 1
 		sig := v.o.res.Class
@@ -256,7 +270,18 @@ func runInProcess(p Property, cases []any, opt Options) []caseOut {
 			}
 		}()
 	}
-	for i := range cases {
+	// dispatch in a fixed pseudo-random order so that expensive cases that sit
+	// together in the list are spread over the run; results stay in index order
+	order := make([]int, len(cases))
+	for i := range order {
+		order[i] = i
+	}
+	rng := gen.New(0xD15BA7C4)
+	for i := len(order) - 1; i > 0; i-- {
+		j := rng.Intn(i + 1)
+		order[i], order[j] = order[j], order[i]
+	}
+	for _, i := range order {
 		next <- i
 	}
 	close(next)
